@@ -254,7 +254,11 @@ func runCompressor(c *Check, p *Program, hc bool) *compResult {
 	if hc {
 		name = "CompressorHC.CompressBlock"
 	}
-	if r, ok := compCache[name]; ok {
+	if !bndArch() {
+		return nil
+	}
+	ck := name + "|" + archSubst
+	if r, ok := compCache[ck]; ok {
 		return r
 	}
 	fn := findFn(c, p, "R11.1", "internal/lz4block", name)
@@ -282,7 +286,7 @@ func runCompressor(c *Check, p *Program, hc bool) *compResult {
 	}
 	c.Extra["rounds_"+name] = res.rounds
 	r := &compResult{coll, res, g}
-	compCache[name] = r
+	compCache[ck] = r
 	return r
 }
 
@@ -379,7 +383,17 @@ type decHooks struct {
 	srcLenVals  map[ssa.Value]bool
 }
 
+// bndArch: the bounds prover's Go front end runs on the default pass (64-bit
+// words) and, in the thorough tier, once more on linux/386 with 32-bit words.
+// arm64 and arm select the same Go files as amd64 and 386 respectively.
+func bndArch() bool {
+	return archSubst == "" || archSubst == "386"
+}
+
 func portableDecoderRulesImpl(c *Check, prefix string) {
+	if !bndArch() {
+		return
+	}
 	p := loadOrTrouble(c, cfgNoasm)
 	if p == nil {
 		return
